@@ -6,11 +6,17 @@ Theorems about the two guarded growth paths (hasher panic inside `resize_inner` 
 witness of defect F1 (the guard as shipped in 0.15.2, `cfg.guardAlways = false`, with an element
 type without drop glue) and its repaired twin. `cfg.guardAlways = true` is the code after the
 `fix:` commit in /repo; the correspondence check forces the model to follow the code.
-API-level statements (every HashMap call leaves `Inv` after any panic) are in Hb.Props.C02 / C05.
+The API-level statements for EVERY history with panics at ANY callback invocation are below:
+`valid_after_any_panic` (the collection is valid after every unwound call) and `no_double_drop`
+(the ownership ledger across unwinds), with `unwound_call_ledger` saying exactly which objects an
+unwound call may lose (only after a destructor panic, or because a partially run `extract_if`/`drain`
+had already handed them to the caller).
 -/
 import Hb.Proofs.Resize
 import Hb.Proofs.Rehash
 import Hb.Proofs.Probe
+import Hb.Proofs.LedgerPanic
+import Hb.Proofs.HistoryX
 namespace Hb.C04
 open Hb
 
@@ -71,6 +77,67 @@ theorem rehash_ok (hc : CfgOk cfg) (hp : ProbeCovers cfg) (env : Env) (w w' : Wo
   rw [hr] at hs
   exact ⟨hs.1, hs.2.2.1, hs.2.2.2.1, hs.2.2.2.2.2.1, hs.2.2.2.2.2.2⟩
 
+/-- VALID AFTER ANY PANIC, whole modelled API: whatever callback panics at whatever invocation (hasher,
+    `Eq`, predicate, destructor — `env` is arbitrary), after every call of every history — returned or
+    unwound — the table satisfies the API invariant and `len` = number of stored elements; nothing is
+    undefined behaviour. (`MapOpX` = basic calls + every entry-API family + try_insert + extend +
+    get_many_mut + Index.) -/
+theorem valid_after_any_panic (hc : CfgOk cfg) (hg : GuardRuns cfg) (env : Env) (op : MapOpX)
+    (w : World) (h : TInv cfg w.t) :
+    match Map.stepX cfg env op w with
+    | .ok (_, w') => TInv cfg w'.t ∧ w'.t.items = w'.t.elems.length
+    | .panic _ w' => TInv cfg w'.t ∧ w'.t.items = w'.t.elems.length
+    | .abort => ∃ j, env.allocOk j = false
+    | .fault _ => False :=
+  stepX_safe hc hg env op w h
+
+/-- NO DOUBLE DROP, for every environment, every panic position and every history (element type with
+    drop glue so that destructor calls are visible; no `mem::forget`-ed drain): if the identities
+    passed in are pairwise distinct, then at the end of the history — however many calls unwound —
+    no key/value object was dropped twice or returned twice, and no dropped or returned object is
+    still stored. -/
+theorem no_double_drop (hc : CfgOk cfg) (hnd : cfg.needsDrop = true) (env : Env)
+    (ops : List MapOp) (w0 : World) (h0 : w0.t = Raw.new cfg.W) (hl0 : w0.log = [])
+    (hnf : hs_NoForget ops) {obs : List Map.Obs} {wf : World}
+    (hrun : Map.run cfg env ops w0 = some (obs, wf))
+    (hK : (insertedK ops).Nodup) (hV : (insertedV ops).Nodup) :
+    ((droppedK wf.log).Nodup ∧ (returnedK (ops.zip obs)).Nodup ∧
+      (∀ x ∈ returnedK (ops.zip obs), x ∉ droppedK wf.log ∧ x ∉ kidsOf wf.t.elems) ∧
+      (∀ x ∈ droppedK wf.log, x ∉ kidsOf wf.t.elems)) ∧
+    ((droppedV wf.log).Nodup ∧ (returnedV (ops.zip obs)).Nodup ∧
+      (∀ x ∈ returnedV (ops.zip obs), x ∉ droppedV wf.log ∧ x ∉ vidsOf wf.t.elems) ∧
+      (∀ x ∈ droppedV wf.log, x ∉ vidsOf wf.t.elems)) :=
+  no_double_drop_parts hc hnd env ops w0 h0 hl0 hnf hrun hK hV
+
+/-- The full ledger of a history with panics: every object passed in is stored, dropped once,
+    returned once, or `lost`; `lost` is empty unless a destructor panicked or an `extract_if` unwound
+    after yielding; all frees are matched; the live blocks are the table's own plus `leaked`, and
+    `leaked` is empty unless a `drain`'s `Drop` unwound (see `drain_drop_panic_leaks_block`). -/
+theorem ledger_with_panics (hc : CfgOk cfg) (hnd : cfg.needsDrop = true) (env : Env)
+    (ops : List MapOp) (w0 : World) (h0 : w0.t = Raw.new cfg.W) (hl0 : w0.log = [])
+    (hnf : hs_NoForget ops) {obs : List Map.Obs} {wf : World}
+    (hrun : Map.run cfg env ops w0 = some (obs, wf)) :
+    ∃ (lostK lostV : List Nat) (leaked : List (Nat × Nat)),
+      List.Perm (kidsOf wf.t.elems ++ droppedK wf.log ++ returnedK (ops.zip obs) ++ lostK)
+        (insertedK ops) ∧
+      List.Perm (vidsOf wf.t.elems ++ droppedV wf.log ++ returnedV (ops.zip obs) ++ lostV)
+        (insertedV ops) ∧
+      hs_AllocInvL cfg wf leaked ∧ TInv cfg wf.t ∧
+      ((∀ p ∈ ops.zip obs, lp_isDrainPanic p = false) → leaked = [] ∧ hs_AllocInv cfg wf) ∧
+      (((∀ c e, env.dropPanics c e = false) ∨ (∀ p ∈ ops.zip obs, lp_isDropPanic p = false)) →
+        leaked = [] ∧ hs_AllocInv cfg wf ∧
+        ((∀ p ∈ ops.zip obs, lp_isExtractPanic p = false) → lostK = [] ∧ lostV = [])) :=
+  run_ledger_panics hc hnd env ops w0 h0 hl0 hnf hrun
+
+/-- Machine-checked witness that the allocator part cannot be stated more strongly: a destructor panic
+    inside the `Drop` of a `Drain` leaves the collection as the valid unallocated singleton while its
+    block stays allocated (a leak after a destructor panic — never a double free). -/
+theorem drain_drop_panic_leaks_block :
+    ∃ obs wf, Map.run { ops := Sse2.ops } lpLeakEnv lpLeakOps { t := Raw.new 16 } = some (obs, wf) ∧
+      ¬ hs_AllocInv { ops := Sse2.ops } wf ∧ liveBlocks wf.log = [(52, 16)] ∧
+      hs_blockOf { ops := Sse2.ops } wf.t = [] :=
+  lpLeak_not_allocInv
+
 /-- F1 (genuine defect of hashbrown 0.15.2, repaired by the `fix:` commit in /repo): with the guard
     as shipped and an element type without drop glue, a hasher panic during `reserve` → in-place
     rehash leaves `items = 6` with a single FULL control byte — the structural invariant is broken
@@ -89,6 +156,10 @@ theorem F1_fixed_witness :
 #print axioms rehash_unwind
 #print axioms rehash_no_fault
 #print axioms rehash_ok
+#print axioms valid_after_any_panic
+#print axioms no_double_drop
+#print axioms ledger_with_panics
+#print axioms drain_drop_panic_leaks_block
 #print axioms F1_defect_witness
 #print axioms F1_fixed_witness
 end Hb.C04
